@@ -38,6 +38,13 @@ func vh_SRV() {
 			f.nextIndex = vNondetU64("c.next." + id)
 		}
 	}
+	// a partially received snapshot from an earlier leader (C11.reset: discarded when this node takes over)
+	var recvFile *vSnapFile
+	if vNondetBool("partial-snapshot") {
+		pf, _ := n.snaps.NewSnapshotFile(vNondetU64("partial.label"), vNondetU64("partial.term"), []byte{0})
+		recvFile = pf.(*vSnapFile)
+		r.snapshot = pf
+	}
 	prevote := vNondetBool("prevote")
 	votes := vNondetInt("votes")
 	vAssume(vAnd(votes >= 1, votes <= 3))
@@ -126,6 +133,9 @@ func vh_SRV() {
 			}
 		}
 		vAssert(vAnd(len(r.operationManager.pendingReplicated) == 0, len(r.operationManager.pendingReadOnly) == 0), "C03.new-leader-starts-with-empty-tables")
+		if recvFile != nil {
+			vAssert(vAnd(r.snapshot == nil, vAnd(recvFile.closed, !recvFile.rec.visible)), "C11.new-leader-discards-partial-snapshot")
+		}
 		vAssert(post.term == roundTerm, "C02.leader-of-the-round-the-votes-belong-to")
 	}
 	// C15.elect (progress): the reply that completes a majority of voters' grants for the round's term elects
